@@ -2,19 +2,22 @@
 # usage: tools/mutant_test.sh <Cxx> <patch.diff> [tier-args...]
 # Applies a patch (diff -u against /repo, -p1) to a scratch copy of /repo, builds the
 # property's harness against the copy and runs the quick tier. Never touches /repo.
-# Scratch: /var/tmp/mut/{repo,h,target,verif}. Remove with: rm -rf /var/tmp/mut
+# Scratch: /var/tmp/mut<slot>/{repo,h,target,verif}. Remove with: rm -rf /var/tmp/mut*
 set -u
 # serialize users of the scratch tree
-exec 9>/var/tmp/mut.lock; flock 9
+# MUT_SLOT selects an independent scratch tree (/var/tmp/mut<slot>) so that two queues can run side by side
+SLOT=${MUT_SLOT:-}
+exec 9>/var/tmp/mut$SLOT.lock; flock 9
 PID=$1; PATCH=$(realpath "$2"); shift 2
-M=/var/tmp/mut
+M=/var/tmp/mut$SLOT
 mkdir -p $M
 rsync -a --delete --exclude target --exclude .git /repo/ $M/repo/
 # rsync restores the original mtimes of files the previous mutant changed; cargo's
 # freshness check is mtime based, so touch them or the stale mutated build survives
 if [ -f $M/last_patched ]; then while read f; do [ -f "$M/repo/$f" ] && touch "$M/repo/$f"; done < $M/last_patched; fi
 grep '^+++ b/' "$PATCH" | sed 's#^+++ b/##' | cut -f1 > $M/last_patched
-rsync -a --delete --exclude target /verif/harness/ $M/h/
+# VERIF_HARNESS_SRC: run an older snapshot of the harness (pre-strengthening measurements)
+rsync -a --delete --exclude target ${VERIF_HARNESS_SRC:-/verif/harness}/ $M/h/
 find $M/h -name Cargo.toml | xargs sed -i "s#/repo/#$M/repo/#g"
 mkdir -p $M/verif && rsync -a --delete /verif/regress $M/verif/ 2>/dev/null; cp /verif/known_findings.json $M/verif/
 ( cd $M/repo && patch -p1 --no-backup-if-mismatch < "$PATCH" ) || { echo "PATCH-FAILED"; exit 3; }
